@@ -365,11 +365,11 @@ func (e *Endpoint) readLoop() {
 			e.rec.DataBytes[f.StreamID] += len(f.Data())
 			e.recvUsed[f.StreamID] += int64(f.Length)
 			e.recvConn -= int64(f.Length)
-			if left := e.recvInit + e.recvGrant[f.StreamID] - e.recvUsed[f.StreamID]; left < 0 {
+			if left := e.recvInit + e.recvGrant[f.StreamID] - e.recvUsed[f.StreamID]; left < 0 && f.Length > 0 {
 				e.rec.Violations = append(e.rec.Violations, Violation{Kind: "stream-window", Stream: f.StreamID,
 					Detail: fmt.Sprintf("DATA of %d flow-controlled octets on stream %d overran the stream window by %d", f.Length, f.StreamID, -left)})
 			}
-			if e.recvConn < 0 {
+			if e.recvConn < 0 && f.Length > 0 {
 				e.rec.Violations = append(e.rec.Violations, Violation{Kind: "conn-window", Stream: f.StreamID,
 					Detail: fmt.Sprintf("DATA of %d flow-controlled octets on stream %d overran the connection window by %d", f.Length, f.StreamID, -e.recvConn)})
 			}
